@@ -552,9 +552,50 @@ func convertIstioListenerToWrapper(ps *PushContext, configNamespace string,
 		svces = ps.servicesExportedToNamespace(configNamespace)
 	}
 	out.services = out.selectServices(svces, configNamespace, hostsByNamespace)
+	out.services = ps.dropHiddenAliases(out.services, configNamespace, hostsByNamespace)
 	out.mostSpecificWildcardVsIndex = computeWildcardHostVirtualServiceIndex(out.virtualServices, out.services)
 
 	return out
+}
+
+// dropHiddenAliases removes, from the services selected for an egress listener, the aliases (ExternalName
+// services) that are not exported to configNamespace or that no host entry of the alias's own namespace
+// (or of the wildcard namespace) imports. Aliases are attached to the concrete service once for the whole
+// mesh (resolveServiceAliases), so the alias service's own exportTo and namespace have to be reapplied here.
+func (ps *PushContext) dropHiddenAliases(services []*Service, configNamespace string,
+	hostsByNamespace map[string]hostClassification,
+) []*Service {
+	wildcardHosts, wnsFound := hostsByNamespace[wildcardNamespace]
+	for i, s := range services {
+		if len(s.Attributes.Aliases) == 0 {
+			continue
+		}
+		kept := make([]NamespacedHostname, 0, len(s.Attributes.Aliases))
+		for _, alias := range s.Attributes.Aliases {
+			aliasSvc, known := ps.ServiceIndex.HostnameAndNamespace[alias.Hostname][alias.Namespace]
+			if !known {
+				// Not a service of the registry (aliases injected directly); nothing to judge.
+				kept = append(kept, alias)
+				continue
+			}
+			if !ps.IsServiceVisible(aliasSvc, configNamespace) {
+				continue
+			}
+			nsHosts, nsFound := hostsByNamespace[alias.Namespace]
+			if (nsFound && nsHosts.Excluded(alias.Hostname)) || (wnsFound && wildcardHosts.Excluded(alias.Hostname)) {
+				continue
+			}
+			if (nsFound && nsHosts.Matches(alias.Hostname)) || (wnsFound && wildcardHosts.Matches(alias.Hostname)) {
+				kept = append(kept, alias)
+			}
+		}
+		if len(kept) != len(s.Attributes.Aliases) {
+			sc := s.ShallowCopy()
+			sc.Attributes.Aliases = kept
+			services[i] = sc
+		}
+	}
+	return services
 }
 
 // servicesForExactHosts resolves the candidate services for an egress listener whose hosts are all exact
